@@ -474,6 +474,38 @@ def search_layered(run):
                                                  "layer_below": [l._index_below for l in lj.layers]},
                                observed={"index": gotb, "index_below": float(lj.index_below)}, expected=exp_below,
                                what="depth below the layer stack does not get the stack's declared index_below")
+        # the dispatch is a FUNCTION OF THE DEPTH: the same layer and index whatever was asked before (boundaries and
+        # their neighbours asked in three orders on one object, against a fresh object per depth), and the layer
+        # answered contains the depth by the declared rule lower < z <= upper (the lowermost layer also owns the bottom edge)
+        def ask(obj, z_):
+            try:
+                k_ = obj.layers.index(obj.layer_at_depth(z_))
+            except ValueError:
+                k_ = None
+            return k_, float(obj.index(z_))
+        zq = list(b) + [float(np.nextafter(x, -np.inf)) for x in b] + [float(np.nextafter(x, np.inf)) for x in b] \
+            + [run.rng.uniform(b[-1] - 3, 3) for _ in range(4)]
+        fresh = {z_: ask(LayeredIce(layers, index_above=ia), z_) for z_ in zq}
+        for z_, (k_, _) in fresh.items():
+            inside = [j for j, l in enumerate(li.layers) if l.valid_range[0] < z_ <= l.valid_range[1]]
+            if not inside and z_ == li.layers[-1].valid_range[0]:
+                inside = [len(li.layers) - 1]      # the bottom edge of the stack belongs to the lowermost layer
+            if (k_ is None and inside) or (k_ is not None and inside != [k_]):
+                run.fail_input("layered-containment", {"bounds": b, "index_above": ia, "z": z_}, observed=k_,
+                               expected=inside[0] if inside else None,
+                               what="depth %r is dispatched to layer %r, the layer containing it is %r" % (z_, k_, inside))
+        shuffled = list(zq)
+        run.rng.shuffle(shuffled)
+        for oname, order in (("as listed", zq), ("reversed", zq[::-1]), ("shuffled", shuffled)):
+            used = LayeredIce(layers, index_above=ia)
+            for pos, z_ in enumerate(order):
+                got_ = ask(used, z_)
+                if got_ != fresh[z_]:
+                    run.fail_input("layered-history", {"bounds": b, "index_above": ia, "asked before": order[:pos], "z": z_,
+                                                       "order": oname}, observed=list(got_), expected=list(fresh[z_]),
+                                   what="LayeredIce answers depth %r differently after earlier look-ups (layer, index) = %r, "
+                                        "on a fresh object %r" % (z_, got_, fresh[z_]))
+                    break
         # scalar, list and array call forms agree everywhere, in particular exactly on the layer boundaries
         zs = list(b) + [float(np.nextafter(x, -np.inf)) for x in b] + [float(np.nextafter(x, np.inf)) for x in b[1:]] \
             + [run.rng.uniform(b[-1], b[0]) for _ in range(4)]
